@@ -15,7 +15,7 @@ CT = {  # c type -> (kind, bits)
 }
 CXX = {'cfloat': 'std::complex<float>', 'cdouble': 'std::complex<double>'}
 SHORT = {'float': 'f32', 'double': 'f64', 'int': 'i32', 'long long': 'i64', 'cfloat': 'c32', 'cdouble': 'c64', 'bool': 'b8',
-         'size_t': 'u64', 'int16_t': 'i16', 'uint32_t': 'u32'}
+         'size_t': 'u64', 'long': 'i64', 'int16_t': 'i16', 'uint32_t': 'u32'}
 
 
 def cxx(t): return CXX.get(t, t)
@@ -56,10 +56,19 @@ class Case:
     max_paths = 64
     logic = None
     fresh = False         # fresh solver per obligation (NRA)
+    portfolio = True      # on unknown, try the external solver binaries
 
     def __init__(s, cid, args, kernel_src, ref_src=None, desc=None, pre=None):
         s.id = cid; s.args = args; s.kernel_src = kernel_src; s.ref_src = ref_src; s.desc = desc or cid
         s.pre_fn = pre; s.expect_compile = True
+
+    def smt_logic(s):
+        if s.logic: return s.logic
+        uf = getattr(s, 'uses_uf', False)
+        if s.dom == 'real': return 'QF_UFNRA' if uf else 'QF_NRA'
+        hasf = any(a.kind == 'f' for a in s.args)
+        if hasf: return None if uf else 'QF_BVFP'
+        return 'QF_UFBV' if uf else 'QF_BV'
 
     # ---- C++ source
     def sig(s): return ', '.join(a.cparam() for a in s.args)
@@ -107,7 +116,7 @@ class Case:
         return s.pre_fn(V) if s.pre_fn else []
 
     def scalar_vars(s):
-        return {a.name: (z3.BitVec(a.name, a.w) if a.value is None else a.value) for a in s.args if isinstance(a, Scal) and a.kind == 'i'}
+        return Vars(s)
 
     # ---- exploration
     def explore(s, mod, fname, dom_factory, base_pc, stats, max_paths=None):
@@ -184,7 +193,11 @@ class Case:
         if a.kind == 'f':
             rd = Reader(dom)
             kf = rd.as_float(kv, a.w); rf = rd.as_float(rv, a.w)
-            o = Obl(label, dom.eq(kf, rf), pc)
+            if dom.name == 'bits' and getattr(s, 'fcompare', 'bits') == 'fpeq':
+                x, y = kf.asfp(), rf.asfp()
+                o = Obl(label, z3.Or(z3.fpEQ(x, y), z3.And(z3.fpIsNaN(x), z3.fpIsNaN(y))), pc)
+            else:
+                o = Obl(label, dom.eq(kf, rf), pc)
             if dom.name == 'real': o.depth = (kf.depth, rf.depth)
             return o
         kb = as_bits(kv, a.w); rb = as_bits(rv, a.w)
@@ -217,3 +230,39 @@ class Obl:
     def __init__(s, label, goal, pc, hyp=None, note='', trivially=None, kind='value'):
         s.label = label; s.goal = goal; s.pc = pc; s.hyp = hyp or []; s.note = note; s.trivially = trivially
         s.kind = kind; s.depth = None; s.result = None; s.model = None; s.time = 0.0
+
+
+class Vars(dict):
+    """precondition vocabulary: V['f'] scalar ints; V.el('a', i) element variable (BitVec in the bits domain / for ints,
+    Real in the real domain); V.fp('a', i) the z3 FloatingPoint view (bits domain); V.nonan('a') etc."""
+    def __init__(s, case):
+        s.case = case
+        for a in case.args:
+            if isinstance(a, Scal) and a.kind == 'i': s[a.name] = z3.BitVec(a.name, a.w) if a.value is None else a.value
+        s.bufs = {a.name: a for a in case.args if isinstance(a, Buf)}
+
+    def el(s, name, i):
+        a = s.bufs[name]
+        if a.kind == 'f' and s.case.dom == 'real': return z3.Real(a.var(i))
+        return z3.BitVec(a.var(i), a.w)
+
+    def fp(s, name, i):
+        a = s.bufs[name]; return z3.fpBVToFP(z3.BitVec(a.var(i), a.w), FSORT[a.w])
+
+    def nonan(s, *names):
+        out = []
+        if s.case.dom == 'real': return out
+        for n in names:
+            a = s.bufs[n]
+            if a.kind != 'f': continue
+            for i in range(a.n): out.append(z3.Not(z3.fpIsNaN(s.fp(n, i))))
+        return out
+
+    def finite(s, *names):
+        out = []
+        if s.case.dom == 'real': return out
+        for n in names:
+            a = s.bufs[n]
+            if a.kind != 'f': continue
+            for i in range(a.n): out += [z3.Not(z3.fpIsNaN(s.fp(n, i))), z3.Not(z3.fpIsInf(s.fp(n, i)))]
+        return out
